@@ -522,12 +522,13 @@ func (c *Collection) Update(key string, exp Exp, callback sgbucket.UpdateFunc) (
 		if newRaw != nil || delete {
 			raw = newRaw
 		}
+		attemptExp := exp // (of this attempt only: an attempt that loses its CAS check must leave nothing behind)
 		if newExp != nil {
-			exp = *newExp
+			attemptExp = *newExp
 		}
 
 		var opt sgbucket.WriteOptions = 0 // Hardcoded; callback cannot customize this :(
-		casOut, err = c.WriteCas(key, exp, cas, raw, opt)
+		casOut, err = c.WriteCas(key, attemptExp, cas, raw, opt)
 		if err == nil {
 			break
 		} else if _, ok := err.(sgbucket.CasMismatchErr); ok {
